@@ -224,7 +224,7 @@ func c16Cases(c *Ctx, emit func(urlCase)) {
 		}
 	}
 	periods := []uint64{0, 1, 29, 30, 31, 60, 1 << 31}
-	for i := 0; i < c.N(20000, 500000); i++ {
+	for i := 0; i < c.N(200000, 5000000); i++ {
 		iss := gen.URLString(rng, false)
 		acc := gen.URLString(rng, true)
 		sec := ref.Base32EncodeNoPad(rng.Bytes(1 + rng.Intn(40)))
@@ -247,7 +247,7 @@ func c16ParseCases(c *Ctx, emit func(parseCase)) {
 	nums := []string{"0", "1", "6", "8", "10", "30", "255", "256", "257", "262", "511", "512", "65535", "65536", "65542", "4294967295", "4294967296", "4294967302",
 		"2147483647", "2147483648", "9223372036854775807", "9223372036854775808", "18446744073709551615", "18446744073709551616", "18446744073709551622",
 		"-1", "-6", "-250", "-256", "-9223372036854775808", "-9223372036854775809", "+6", "+30", "06", "0030", "6.0", "6e0", "1e3", "0x10", " 6", "6 ", "six", "６", "", "NaN", "-", "+", "--6", "6,000"}
-	for i := 0; i < 40; i++ {
+	for i := 0; i < c.N(400, 20000); i++ {
 		nums = append(nums, fmt.Sprint(int64(rng.U64())), fmt.Sprint(rng.U64()), fmt.Sprint(256+rng.Intn(100000)))
 	}
 	for _, typ := range []string{"totp", "hotp", "TOTP", "Totp", "hOtP", "HOTP"} {
@@ -268,9 +268,9 @@ func init() {
 		Rule: "round trip: issuers (no colon), accounts and secrets drawn from Unicode incl. space % / ? # & = + @ and percent-escape look-alikes x digits 0..255 x 3 hashes x periods {0,1,29,30,31,60,2^31}; Generate{TOTP,HOTP}URL(p).String() is decoded by an independent RFC 3986 parser and by ParseOTPAuthURL(url.Parse(text)) and both must return the input; parse-only: hand-assembled URLs with digits/period texts over -2^63..2^64+, non-numeric and empty must fail or return exactly the number written; type in any letter case; " +
 			"distinct_nontrivial counts distinct parameter sets round-tripped plus distinct hand-assembled URL texts",
 		Run: func(c *Ctx) {
-			var cases []urlCase
-			c16Cases(c, func(k urlCase) { cases = append(cases, k) })
-			parallelJudge(c, cases, judgeURL)
+			b := newBatcher(c, judgeURL, 0)
+			c16Cases(c, b.add)
+			b.flush()
 			var ps []parseCase
 			c16ParseCases(c, func(k parseCase) { ps = append(ps, k) })
 			parallelJudge(c, ps, judgeParse)
